@@ -396,6 +396,7 @@ Muts(pr, t, q) ==
     \cup {M1("dup", i) : i \in I}
     \cup {Mut("swap", ij[1], ij[2], <<>>, <<>>, 0) : ij \in {x \in I \X I : x[1] < x[2] /\ es[x[1]] # es[x[2]]}}
     \cup {M1("prune", i) : i \in IFull}
+    \cup {M1("tonil", i) : i \in {j \in I : es[j].e # "nil"}}      \* the subtree that starts at entry i is replaced by a nil entry
     \cup {M1("tohash", i) : i \in IInt}
     \cup {Mut("embed", i, 0, <<>>, <<>>, b) : i \in {j \in IInt : ~HasEmb(es[j])}, b \in {0, 1}}   \* 0 = the true child hashes, 1 = empty hashes
     \cup {M1("nilhash", i) : i \in {i \in I : es[i].e = "nil"}}
@@ -420,6 +421,7 @@ Applicable(pr, mu) ==
     CASE mu.k \in {"drop", "dup", "sethash", "splice"} -> i \in 1..N
       [] mu.k = "swap" -> i \in 1..N /\ mu.j \in 1..N
       [] mu.k = "prune" -> i \in 1..N /\ es[i].e = "full"
+      [] mu.k = "tonil" -> i \in 1..N /\ es[i].e # "nil"
       [] mu.k = "tohash" -> i \in 1..N /\ IsIntE(es[i])
       [] mu.k = "embed" -> i \in 1..N /\ IsIntE(es[i]) /\ ~HasEmb(es[i])
       [] mu.k = "nilhash" -> i \in 1..N /\ es[i].e = "nil"
@@ -445,6 +447,8 @@ Apply(pr, mu) ==
       [] mu.k = "swap" -> E([es EXCEPT ![i] = es[mu.j], ![mu.j] = es[i]])
       [] mu.k = "prune" -> LET sp == Span(es, i, pr.v) IN
                            IF sp.ok THEN E(Cut(es, i, sp.end, <<HashE(sp.term)>>)) ELSE pr
+      [] mu.k = "tonil" -> LET sp == Span(es, i, pr.v) IN
+                           E(Cut(es, i, IF sp.ok THEN sp.end ELSE i + 1, <<NilE>>))
       [] mu.k = "tohash" -> LET sp == Span(es, i, pr.v) IN
                             IF sp.ok THEN E(Cut(es, i, i + 1, <<HashE(sp.term)>>)) ELSE pr
       [] mu.k = "embed" -> LET ch == ChildTerms(es, i, pr.v) IN
